@@ -860,7 +860,7 @@ stockholm_parse_sq(ESL_MSAFILE *afp, ESL_STOCKHOLM_PARSEDATA *pd, ESL_MSA *msa, 
   int       seqidx = pd->si;
   int       status;
   
-  if (esl_memtok(&p, &n, " \t", &seqname, &seqnamelen) != eslOK) ESL_EXCEPTION(eslEINCONCEIVABLE, "EOL can't happen here.");
+  if (esl_memtok(&p, &n, " \t", &seqname, &seqnamelen) != eslOK) ESL_FAIL(eslEFORMAT, afp->errmsg, "sequence line has no name (line consists of NUL bytes and blanks?)"); /* esl_memtok() treats NUL as a delimiter; the caller only skipped ' ' and tab */
   while (n && strchr(" \t", p[n-1])) n--; /* skip backwards from eol, to delimit aligned text without going through it */
 
   if (! n) ESL_FAIL(eslEFORMAT, afp->errmsg, "sequence line with no sequence?");
